@@ -168,7 +168,12 @@ def _c20_units():
     grp("st20", "harness/c13_streams.cpp", [], "p17", ["r17", "s17", "p20"], (30, 48000), (240, 2000000), 90)
     grp("tk20", "harness/c10_tasks.cpp", [], "p20", ["s20"], (25, 48000), (240, 2000000), 100)
     return us
-PROPS["C20"] = dict(level="exploration", units=_c20_units(),
+# async_trace oracle: a mid-size catalogue in the continuation-visitation build only; async_trace() taken from every leaf's receiver
+# must reach the outermost receiver (except through the adaptors of the known finding async_trace_chain_stops)
+_EF_TRACE = gen_shapes("ef_trace", 20260925, int(os.environ.get("VERIF_EF_TRACE_COUNT", "84")), extra=["--exclude", "K_SIR", "--no-targeted"])
+def _c20_trace_unit():
+    return Unit("ef20_trace", "harness/exprfuzz.cpp", cfg="v17", extra_src=["exprfuzz/pinned.cpp"] + _EF_TRACE, max_size=90, shards=8, quick=(20, 300000), thorough=(240, 20000000))
+PROPS["C20"] = dict(level="exploration", units=_c20_units() + [_c20_trace_unit()],
     assumptions=["every configuration runs the same generated byte strings (same seeds); a digest is the harness's record of what a user can observe: completion channel, values / error identity, completion context, relative order of starts, completions, stop observations and cleanups",
                  "configurations: p17 = C++17, assertions on, no async stacks (reference); r17 = C++17 -DNDEBUG (assertions and async stacks compiled out); s17 = C++17 with async stack tracing; v17 = C++17 with UNIFEX_ENABLE_CONTINUATION_VISITATIONS=1; p20 = C++20 (clang); s20 = C++20 (g++) with async stack tracing (coroutine tasks)",
                  "copy/move counts of values and allocation counts are not part of the digest (the language may elide differently)"])
